@@ -272,6 +272,19 @@ func c02Cases(quick bool) []c02Case {
 		cs = append(cs, c02Case{ID: fmt.Sprintf("tok/line-comments/d=%d", d), Depth: -d, Build: func() string { return strings.Repeat("--\n", d) + "SELECT 1" }})
 		cs = append(cs, c02Case{ID: fmt.Sprintf("tok/mixed-comments/d=%d", d), Depth: -d, Build: func() string { return strings.Repeat("/* a */ -- b\n", d) + "SELECT 1" }})
 	}
+	// parser: postfix and infix chains (array / cast / JSON chains, flat operator and join chains) are repetition, not
+	// nesting: accepted at any length with a bounded stack, like the comment runs
+	for _, ch := range []struct{ name, pre, unit, suf string }{
+		{"cast", "SELECT x", "::int", " FROM t"}, {"subscript", "SELECT a", "[1]", " FROM t"}, {"slice", "SELECT a", "[1:2]", " FROM t"}, {"json-arrow", "SELECT a", "->'k'", " FROM t"},
+		{"json-cast", "SELECT a", "->>'k'::text", " FROM t"}, {"plus", "SELECT 1", " + 1", " FROM t"}, {"concat", "SELECT a", " || b", " FROM t"}, {"or", "SELECT a FROM t WHERE b", " OR c", ""},
+		{"and-comparisons", "SELECT a FROM t WHERE b = 1", " AND c = 2", ""}, {"union", "SELECT 1", " UNION SELECT 1", ""}, {"cross-join", "SELECT * FROM t", " CROSS JOIN u", ""},
+		{"join-on", "SELECT * FROM t", " JOIN u ON a = b", ""}, {"statements", "SELECT 1", "; SELECT 1", ""},
+	} {
+		for _, d := range []int{20, 200, 20000, 100000} {
+			ch, d := ch, d
+			cs = append(cs, c02Case{ID: fmt.Sprintf("chain/%s/d=%d", ch.name, d), Depth: -d, Build: func() string { return ch.pre + strings.Repeat(ch.unit, d) + ch.suf }})
+		}
+	}
 	return cs
 }
 
@@ -392,7 +405,7 @@ func c02Nesting(a *ChildArgs) {
 		case d < 0:
 			// tokenizer comment chains are not nesting: they must simply be accepted with bounded stack
 			if err != nil {
-				a.Rec.Viol("C02/"+ctxName+"/rejected", "comment runs are accepted", fmt.Sprintf("%d comments: %v", -d, firstLine(err.Error())), wit)
+				a.Rec.Viol("C02/"+ctxName+"/rejected", "repetition that is not nesting (comment runs, postfix and operator chains) is accepted", fmt.Sprintf("%d repetitions: %v", -d, firstLine(err.Error())), wit)
 			}
 		case d <= 20:
 			if err != nil {
